@@ -47,7 +47,8 @@ SEARCH_N = 60
 SHARD = 20
 DRIVER_TIMEOUT = 1500
 COQ_FILES = ["theories/C12/Props.v", "theories/C12/Link.v"]
-RULE = ("round 5 adds: breaker phases against peers that accept, read the request and hang up (bare io.EOF) / reset / never answer "
+RULE = ("round 6 adds: kv shard-fault streams (2-4 shards behind switchable proxies; one shard unreachable; multi-key Del of "
+        "3-6 keys in random order against the twin's per-key DELs of the reachable keys; shard back up); round 5 adds: breaker phases against peers that accept, read the request and hang up (bare io.EOF) / reset / never answer "
         "(30 calls cycling over 16 command kinds, real breaker), per-command connection-failure runs (every guarded method twice, "
         "recording breaker), count streams (populated hash/set/zset/keys, calls naming 0-3 existing members at once; adds vs "
         "updates); round 4 adds: construction options node/cluster x pass x tls (New(addr, options...) and Config.NewRedis) against "
@@ -612,8 +613,38 @@ def _connfail(rng, mode, sample=None, n=2):
 
 def _fixed_round5(rng, tier, first=True):
     full = tier not in ("quick",) and first      # every guarded method, twice, in all three modes: once per run
-    return [_counts(rng, False), _counts(rng, True), _connfail(rng, "eof", None, 2 if full else 1),
+    return [_shard_fault(rng, 2), _shard_fault(rng, 3), _shard_fault(rng),
+            _counts(rng, False), _counts(rng, True), _connfail(rng, "eof", None, 2 if full else 1),
             _connfail(rng, "reset", None if full else 30), _connfail(rng, "hang", None if full else 12)]
+
+
+# ---- round 6: multi-key delete on the sharded store while a shard is unreachable ----
+def _shard_fault(rng, nshards=None):
+    """>= 2 shards behind switchable proxies: populate, take one shard down, multi-key Dels naming 3-6 keys in random
+    order (the unreachable keys come first / in the middle / last), other commands on reachable keys, shard up again,
+    more deletes"""
+    n = nshards or rng.randint(2, 4)
+    keys = ["fk%d" % i for i in range(14)]
+    ops = []
+    fill = lambda: [ops.append({"m": "SetCtx", "form": "ctx", "a": [k, rng.choice(VALS)]}) for k in keys]
+    fill()
+    for rnd in range(rng.randint(2, 3)):
+        victim = rng.randrange(n)
+        ops.append({"m": "#down", "w": victim, "form": "ctx", "a": []})
+        for _ in range(rng.randint(3, 5)):
+            ks = rng.sample(keys, rng.randint(3, 6))
+            if rng.random() < 0.3:
+                ks.insert(rng.randrange(len(ks) + 1), "nokey")
+            ops.append({"m": "DelCtx", "form": rng.choice(["ctx", "plain"]), "a": [ks]})
+            for _ in range(rng.randint(0, 2)):
+                m = rng.choice(["GetCtx", "SetCtx", "ExistsCtx", "IncrCtx"])
+                ops.append({"m": m, "form": "ctx", "a": [rng.choice(keys)] + ([rng.choice(VALS)] if m == "SetCtx" else [])})
+        ops.append({"m": "#up", "w": victim, "form": "ctx", "a": []})
+        ops.append({"m": "DelCtx", "form": "ctx", "a": [rng.sample(keys, 4)]})
+        fill()
+    shards = [{"cluster": False, "pass": rng.choice(["", "pw"]), "tls": False} for _ in range(n)]
+    return {"kind": "kv", "seed": rng.randrange(1 << 16), "weights": [rng.choice([50, 100, 100, 200]) for _ in range(n)],
+            "shards": shards, "proxy": True, "fault": True, "ops": ops}
 
 
 def _fixed_round4(rng):
@@ -898,7 +929,14 @@ def bucket(case, obs):
         out.append("shards=%d" % len(case["weights"]))
         if len({i for _, i in obs.get("places", [])}) > 1:
             out.append("kvstate:keys-on-several-shards")
+    if case.get("fault"):
+        out.append("stream:shard-fault")
     for op, st in zip(case["ops"], obs.get("steps", [])):
+        if st.get("downpos"):
+            dp, nk = st["downpos"], st["nkeys"]
+            out.append("faultdel:unreachable-" + ("first" if dp[0] == 0 else "last" if dp[0] == nk - 1 else "middle") +
+                       (":then-reachable" if dp[0] < nk - 1 and any(p not in dp for p in range(dp[0] + 1, nk)) else ""))
+            out.append("faultdel:count=%s" % st["r"]["v"].get("z"))
         if "skip" in st:
             out.append("skip:" + st["skip"].split(" ")[0] + (":kv" if case["kind"] == "kv" and st["skip"] == "restart" else ""))
             continue
